@@ -7,6 +7,7 @@ package main
 
 import (
 	"fmt"
+	"math"
 	"math/big"
 	"reflect"
 	"sort"
@@ -203,6 +204,7 @@ type GenOpts struct {
 	NoSet     bool
 	Collide   bool // collision-biased numbers
 	Long      int  // > 0: a third of the strings are long twins of that many bytes, identical except at one position
+	LongColl  int  // > 0: a third of the lists, sets and maps of numbers / strings are long twins of that many members, identical except for one member
 	Fam       int  // > 0: half of the strings and numbers come from one family of truly hash-colliding values (collisions.go)
 	MarkDense bool // every second node marked instead of every sixth
 	MaxLen    int
@@ -322,6 +324,29 @@ func genNum(c *Ctx, collide bool) NumDesc {
 		}
 	}
 	d := NumDesc{Text: numTexts[ti]}
+	switch c.G(8) {
+	case 0:
+		// a power of two or one of its float64 neighbours, written the shortest way that float64 reads back:
+		// other precisions read a slightly different number from the same text, on the other side of the
+		// power of two (another binary exponent, the same decimal)
+		k := c.G(161) - 80
+		f := math.Ldexp(1, k)
+		switch c.G(4) {
+		case 1:
+			f = math.Nextafter(f, 0)
+		case 2:
+			f = math.Nextafter(f, math.Inf(1))
+		}
+		if c.G(2) == 0 {
+			f = -f
+		}
+		d.Text = strconv.FormatFloat(f, 'g', -1, 64)
+	case 1:
+		// any float64 of moderate magnitude, likewise
+		mant := uint64(c.G(1<<26))<<26 | uint64(c.G(1<<26))
+		f := math.Ldexp(float64(mant|1<<52), c.G(121)-60-52)
+		d.Text = strconv.FormatFloat(f, 'g', -1, 64)
+	}
 	m := c.G(12)
 	switch {
 	case m <= 5:
@@ -464,6 +489,30 @@ func longTwin(n, where, letter int) string {
 	return string(b)
 }
 
+// longTwinColl: collections of n members that are identical except for one member at one of five positions -
+// whatever samples, truncates or summarises long collections must still tell them apart.
+func longTwinColl(v *VDesc, n, where, variant int) {
+	pos := []int{0, n / 4, n / 2, 3 * n / 4, n - 1}[where%5]
+	for i := 0; i < n; i++ {
+		e := &VDesc{T: v.T.Elem}
+		if v.T.Elem.K == KNumber {
+			e.Num = NumDesc{Mode: NumParse, Text: strconv.Itoa(i)}
+			if i == pos {
+				e.Num.Text = strconv.Itoa(1000 + variant%3)
+			}
+		} else {
+			e.S = fmt.Sprintf("m%03d", i)
+			if i == pos {
+				e.S = fmt.Sprintf("m%03d-%c", i, "XYZ"[variant%3])
+			}
+		}
+		if v.T.K == KMap {
+			v.Keys = append(v.Keys, fmt.Sprintf("k%03d", i))
+		}
+		v.Elems = append(v.Elems, e)
+	}
+}
+
 func genStr(c *Ctx) string { return strPool[c.G(len(strPool))] }
 
 func nfc(s string) string { return norm.NFC.String(s) }
@@ -583,6 +632,10 @@ func genValue(c *Ctx, t *TDesc, depth int, o GenOpts) *VDesc {
 	maxLen := o.MaxLen
 	if maxLen == 0 {
 		maxLen = 3
+	}
+	if o.LongColl > 0 && (t.K == KList || t.K == KSet || t.K == KMap) && (t.Elem.K == KNumber || t.Elem.K == KString) && c.G(3) == 0 {
+		longTwinColl(v, o.LongColl, c.G(5), c.G(3))
+		return v
 	}
 	switch t.K {
 	case KBool:
